@@ -9,17 +9,53 @@ set_option linter.unusedSectionVars false
 namespace Jb.Hts
 
 /-- **Wildcard matching is what it says.** -/
-theorem glob_correct (p s : List Char) : glob p s = true ↔ Matches p s := by
-  sorry
+theorem glob_sound (p s : List Char) : glob p s = true → Matches p s := by
+  fun_induction glob p s with
+  | case1 => intro _; exact .nil
+  | case2 => intro h; simp at h
+  | case3 p ih => intro h; exact .star_skip (ih h)
+  | case4 p c s ih1 ih2 =>
+    intro h
+    rw [Bool.or_eq_true] at h
+    rcases h with h | h
+    · exact .star_skip (ih1 h)
+    · exact .star_eat (ih2 h)
+  | case5 => intro h; simp at h
+  | case6 p c s ih => intro h; exact .any1 (ih h)
+  | case7 => intro h; simp at h
+  | case8 a p c s h1 h2 ih =>
+    intro h
+    rw [Bool.and_eq_true, beq_iff_eq] at h
+    obtain ⟨rfl, h⟩ := h
+    exact .lit (by rintro rfl; exact h1 rfl) (by rintro rfl; exact h2 rfl) (ih h)
+
+theorem glob_complete (p s : List Char) (h : Matches p s) : glob p s = true := by
+  induction h with
+  | nil => rw [glob]
+  | @star_skip p s _ ih =>
+    cases s with
+    | nil => rw [glob]; exact ih
+    | cons c s => rw [glob, ih]; rfl
+  | @star_eat p c s _ ih => rw [glob, ih, Bool.or_true]
+  | @any1 p c s _ ih => rw [glob]; exact ih
+  | @lit a p s h1 h2 _ ih =>
+    rw [glob.eq_8 _ _ _ _ h1 h2]
+    simp [ih]
+
+theorem glob_correct (p s : List Char) : glob p s = true ↔ Matches p s :=
+  ⟨glob_sound p s, glob_complete p s⟩
 
 theorem questionTest_iff (pats : List (List Char)) (label : List Char) :
     questionTest pats label = true ↔ ∃ p ∈ pats, Matches p label := by
-  sorry
+  simp [questionTest, List.any_eq_true, glob_correct]
+
+theorem child_beq_iff (a b : Child) : (a == b) = true ↔ a = b := by
+  cases a <;> cases b <;> simp [BEq.beq, instBEqChild.beq]
 
 /-- A single-leaf tree selects its PDF for every label. -/
 theorem single_leaf (qs : Questions) (st : Nat) (id : Int) (q : String) (k : Nat) (label : List Char) :
     evalTree qs ⟨st, [⟨id, q, .pdf k, .pdf k⟩]⟩ label = some k := by
-  sorry
+  simp [evalTree, child_beq_iff]
 
 /-- `from_linear`: mean `i` is entry `i`, variance `i` is entry `i + len`, the voicing weight (if any)
     is entry `2·len`. -/
@@ -27,7 +63,12 @@ theorem fromLinear_layout (lin : List UInt32) (i : Nat) (hi : i < lin.length / 2
     (fromLinear lin).means[i]? = lin[i]? ∧ (fromLinear lin).varis[i]? = lin[i + lin.length / 2]? ∧
     (fromLinear lin).msd = lin[lin.length / 2 * 2]? ∧
     (fromLinear lin).means.length = lin.length / 2 ∧ (fromLinear lin).varis.length = lin.length / 2 := by
-  sorry
+  unfold fromLinear
+  refine ⟨?_, ?_, rfl, ?_, ?_⟩ <;> dsimp only
+  · rw [List.getElem?_take, if_pos hi]
+  · rw [List.getElem?_take, if_pos hi, List.getElem?_drop, Nat.add_comm]
+  · rw [List.length_take]; omega
+  · rw [List.length_take, List.length_drop]; omega
 
 /-- well-formed file tree: at least two rows or a genuine question row, distinct row ids, and every
     node reference points to a *later* row (as in every HTS file; makes the walk terminate) -/
@@ -36,6 +77,219 @@ def TreeWF (t : FileTree) : Prop :=
   ∀ (i : Nat) (r : Row), t.rows[i]? = some r →
     (∀ id, r.yes = .node id → ∃ j : Nat, i < j ∧ (t.rows[j]?).map (fun (x : Row) => x.id) = some id) ∧
     (∀ id, r.no = .node id → ∃ j : Nat, i < j ∧ (t.rows[j]?).map (fun (x : Row) => x.id) = some id)
+
+/-! #### `convert_tree` unfolded: the pieces of `convertTree.convertRows` by name -/
+
+def pdfIds (rows : List Row) : List Nat :=
+  sortNat (rows.foldl (fun acc r =>
+      let acc := match r.yes with | .pdf k => acc ++ [k] | _ => acc
+      match r.no with | .pdf k => acc ++ [k] | _ => acc) [])
+
+def resolveC (rows : List Row) (c : Child) : Option Nat :=
+  match c with
+  | .node id => ((rows.map (·.id)).zip (List.range rows.length)).find? (·.1 == id) |>.map (·.2)
+  | .pdf k => (indexOf? (pdfIds rows) k).map (· + rows.length)
+
+def stepC (qs : Questions) (fail : String → Outcome String (Nat × List TNode)) (rows : List Row)
+    (acc : Outcome String (List TNode)) (r : Row) : Outcome String (List TNode) :=
+  match acc with
+  | .ok nodes =>
+    match resolveC rows r.yes, resolveC rows r.no, lookupQ qs r.qname with
+    | some y, some nn, some pats => .ok (nodes ++ [.node pats y nn])
+    | none, _, _ => (fail "unknown node reference").map (fun _ => [])
+    | _, none, _ => (fail "unknown node reference").map (fun _ => [])
+    | _, _, none => (fail "unknown question").map (fun _ => [])
+  | e => e
+
+theorem convertRows_eq (qs : Questions) (fail : String → Outcome String (Nat × List TNode)) (t : FileTree) :
+    convertTree.convertRows qs fail t =
+      match t.rows.foldl (stepC qs fail t.rows) (.ok []) with
+      | .ok nodes => .ok (t.state, nodes ++ (pdfIds t.rows).map .leaf)
+      | .err e => .err e
+      | .panic s => .panic s := rfl
+
+/-- the table entry of a row (meaningful when all three lookups succeed) -/
+def rowNodeD (qs : Questions) (rows : List Row) (r : Row) : TNode :=
+  .node ((lookupQ qs r.qname).getD []) ((resolveC rows r.yes).getD 0) ((resolveC rows r.no).getD 0)
+
+theorem foldl_stepC_notok (qs : Questions) (fail : String → Outcome String (Nat × List TNode)) (rows : List Row)
+    (e : Outcome String (List TNode)) (he : ∀ a, e ≠ .ok a) (l : List Row) :
+    l.foldl (stepC qs fail rows) e = e := by
+  induction l with
+  | nil => rfl
+  | cons r l ih =>
+    rw [List.foldl_cons]
+    have : stepC qs fail rows e r = e := by
+      cases e with
+      | ok a => exact absurd rfl (he a)
+      | err _ => rfl
+      | panic _ => rfl
+    rw [this, ih]
+
+theorem map_notok {α β : Type} (f : α → β) (x : Outcome String α) (hx : ∀ a, x ≠ .ok a) :
+    ∀ b, Outcome.map f x ≠ .ok b := by
+  cases x with
+  | ok a => exact absurd rfl (hx a)
+  | err _ => intro b h; cases h
+  | panic _ => intro b h; cases h
+
+theorem foldl_stepC_ok (qs : Questions) (fail : String → Outcome String (Nat × List TNode)) (rows : List Row)
+    (hfail : ∀ w a, fail w ≠ .ok a) (l : List Row) (acc res : List TNode)
+    (h : l.foldl (stepC qs fail rows) (.ok acc) = .ok res) :
+    (∀ r ∈ l, ∃ y nn pats, resolveC rows r.yes = some y ∧ resolveC rows r.no = some nn ∧
+      lookupQ qs r.qname = some pats) ∧ res = acc ++ l.map (rowNodeD qs rows) := by
+  induction l generalizing acc with
+  | nil => simp at h; simp [h]
+  | cons r l ih =>
+    rw [List.foldl_cons] at h
+    have hbad : ∀ e : Outcome String (List TNode), (∀ a, e ≠ .ok a) → stepC qs fail rows (.ok acc) r = e → False := by
+      intro e he hs
+      rw [hs, foldl_stepC_notok _ _ _ _ he] at h
+      exact he _ h
+    rcases h1 : resolveC rows r.yes with _ | y
+    · exact (hbad _ (map_notok _ _ (hfail _)) (by simp only [stepC, h1]; rfl)).elim
+    rcases h2 : resolveC rows r.no with _ | nn
+    · exact (hbad _ (map_notok _ _ (hfail _)) (by simp only [stepC, h1, h2]; rfl)).elim
+    rcases h3 : lookupQ qs r.qname with _ | pats
+    · exact (hbad _ (map_notok _ _ (hfail _)) (by simp only [stepC, h1, h2, h3]; rfl)).elim
+    have hs : stepC qs fail rows (.ok acc) r = .ok (acc ++ [.node pats y nn]) := by
+      simp only [stepC, h1, h2, h3]
+    rw [hs] at h
+    obtain ⟨ha, hb⟩ := ih _ h
+    refine ⟨?_, ?_⟩
+    · intro r' hr'
+      rcases List.mem_cons.1 hr' with rfl | hr'
+      · exact ⟨y, nn, pats, h1, h2, h3⟩
+      · exact ha r' hr'
+    · rw [hb]; simp [rowNodeD, h1, h2, h3]
+
+
+theorem find_zip_range' (rows : List Row) (id : Int) (s y : Nat)
+    (h : (((rows.map (·.id)).zip (List.range' s rows.length)).find? (·.1 == id)).map (·.2) = some y) :
+    s ≤ y ∧ ∃ r, rows[y - s]? = some r ∧ r.id = id ∧ findRow rows id = some r := by
+  induction rows generalizing s with
+  | nil => simp at h
+  | cons r rows ih =>
+    simp only [List.map_cons, List.length_cons, List.range'_succ, List.zip_cons_cons, List.find?_cons] at h
+    by_cases hr : r.id = id
+    · simp only [hr, beq_self_eq_true, Option.map_some, Option.some.injEq] at h
+      subst h
+      exact ⟨le_refl _, r, by simp, hr, by simp [findRow, hr]⟩
+    · have hb : (r.id == id) = false := by simpa using hr
+      simp only [hb] at h
+      obtain ⟨hle, r', h1, h2, h3⟩ := ih (s + 1) h
+      refine ⟨by omega, r', ?_, h2, ?_⟩
+      · have : y - s = (y - (s + 1)) + 1 := by omega
+        rw [this, List.getElem?_cons_succ]; exact h1
+      · simpa [findRow, hb] using h3
+
+theorem resolveC_node (rows : List Row) (id : Int) (y : Nat) (h : resolveC rows (.node id) = some y) :
+    ∃ r, rows[y]? = some r ∧ r.id = id ∧ findRow rows id = some r := by
+  simp only [resolveC, List.range_eq_range'] at h
+  simpa using (find_zip_range' rows id 0 y h).2
+
+theorem indexOf_go_spec (x : Nat) (l : List Nat) (i m : Nat) (h : indexOf?.go x i l = some m) :
+    i ≤ m ∧ l[m - i]? = some x := by
+  induction l generalizing i with
+  | nil => simp [indexOf?.go] at h
+  | cons y ys ih =>
+    simp only [indexOf?.go] at h
+    by_cases hy : y = x
+    · simp only [hy, beq_self_eq_true, if_true, Option.some.injEq] at h
+      subst h; simp [hy]
+    · have hb : (y == x) = false := by simpa using hy
+      simp only [hb] at h
+      obtain ⟨hle, h1⟩ := ih (i + 1) h
+      refine ⟨by omega, ?_⟩
+      have : m - i = (m - (i + 1)) + 1 := by omega
+      rw [this, List.getElem?_cons_succ]; exact h1
+
+theorem resolveC_pdf (rows : List Row) (k y : Nat) (h : resolveC rows (.pdf k) = some y) :
+    ∃ j, y = rows.length + j ∧ (pdfIds rows)[j]? = some k := by
+  simp only [resolveC, indexOf?, Option.map_eq_some_iff] at h
+  obtain ⟨j, hj, rfl⟩ := h
+  exact ⟨j, by omega, by simpa using (indexOf_go_spec k _ 0 j hj).2⟩
+
+
+/-- the table `convert_tree` builds from rows that all resolve -/
+def tableOf (qs : Questions) (rows : List Row) : List TNode :=
+  rows.map (rowNodeD qs rows) ++ (pdfIds rows).map TNode.leaf
+
+theorem tableOf_row (qs : Questions) (rows : List Row) (y : Nat) (r : Row) (h : rows[y]? = some r) :
+    (tableOf qs rows)[y]? = some (rowNodeD qs rows r) := by
+  have hy : y < rows.length := (List.getElem?_eq_some_iff.1 h).1
+  rw [tableOf, List.getElem?_append_left (by simpa using hy), List.getElem?_map, h]; rfl
+
+theorem tableOf_leaf (qs : Questions) (rows : List Row) (j k : Nat) (h : (pdfIds rows)[j]? = some k) :
+    (tableOf qs rows)[rows.length + j]? = some (.leaf k) := by
+  rw [tableOf, List.getElem?_append_right (by simp)]; simp [h]
+
+theorem resolve_later (t : FileTree) (hwf : TreeWF t) (i : Nat) (r : Row) (hr : t.rows[i]? = some r)
+    (c : Child) (hc : c = r.yes ∨ c = r.no) (y : Nat) (hy : resolveC t.rows c = some y) : i < y := by
+  have hi : i < t.rows.length := (List.getElem?_eq_some_iff.1 hr).1
+  cases c with
+  | pdf k => obtain ⟨j, rfl, _⟩ := resolveC_pdf _ _ _ hy; omega
+  | node id =>
+    obtain ⟨r', hr', hid, _⟩ := resolveC_node _ _ _ hy
+    obtain ⟨h1, h2⟩ := hwf.2 i r hr
+    have hj : ∃ j, i < j ∧ (t.rows[j]?).map (fun (x : Row) => x.id) = some id := by
+      rcases hc with hc | hc
+      · exact h1 id hc.symm
+      · exact h2 id hc.symm
+    obtain ⟨j, hij, hj⟩ := hj
+    have hy' : y < (t.rows.map (fun (x : Row) => x.id)).length := by
+      simpa using (List.getElem?_eq_some_iff.1 hr').1
+    have heq : (t.rows.map (fun (x : Row) => x.id))[y]? = (t.rows.map (fun (x : Row) => x.id))[j]? := by
+      rw [List.getElem?_map, List.getElem?_map, hj, hr']; simp [hid]
+    have := (List.getElem?_inj hy' hwf.1).1 heq
+    omega
+
+theorem evalChild_pdf (qs : Questions) (rows : List Row) (label : List Char) (m k : Nat) :
+    evalChild qs rows label m (.pdf k) = some k := by
+  cases m <;> rfl
+
+theorem sim (qs : Questions) (t : FileTree) (hwf : TreeWF t) (label : List Char)
+    (hall : ∀ r ∈ t.rows, ∃ y nn pats, resolveC t.rows r.yes = some y ∧ resolveC t.rows r.no = some nn ∧
+      lookupQ qs r.qname = some pats) :
+    ∀ (m : Nat) (c : Child) (y : Nat), resolveC t.rows c = some y → t.rows.length - y ≤ m →
+      ∃ k, searchNode (tableOf qs t.rows) label (m + 1) y = some k ∧
+        evalChild qs t.rows label m c = some k := by
+  have hpdf : ∀ (m k y : Nat), resolveC t.rows (.pdf k) = some y →
+      ∃ k', searchNode (tableOf qs t.rows) label (m + 1) y = some k' ∧
+        evalChild qs t.rows label m (.pdf k) = some k' := by
+    intro m k y hy
+    obtain ⟨j, rfl, hj⟩ := resolveC_pdf _ _ _ hy
+    exact ⟨k, by rw [searchNode, tableOf_leaf qs _ _ _ hj], evalChild_pdf _ _ _ _ _⟩
+  intro m
+  induction m with
+  | zero =>
+    intro c y hy hm
+    cases c with
+    | pdf k => exact hpdf 0 k y hy
+    | node id =>
+      obtain ⟨r, hr, _, _⟩ := resolveC_node _ _ _ hy
+      have := (List.getElem?_eq_some_iff.1 hr).1
+      omega
+  | succ m ih =>
+    intro c y hy hm
+    cases c with
+    | pdf k => exact hpdf _ k y hy
+    | node id =>
+      obtain ⟨r, hr, hid, hfind⟩ := resolveC_node _ _ _ hy
+      obtain ⟨yy, nn, pats, h1, h2, h3⟩ := hall r (List.mem_of_getElem? hr)
+      have hlt := (List.getElem?_eq_some_iff.1 hr).1
+      rw [searchNode, tableOf_row qs _ _ _ hr]
+      simp only [rowNodeD, h1, h2, h3, Option.getD_some]
+      rw [evalChild]
+      simp only [hfind, h3]
+      by_cases hq : questionTest pats label = true
+      · simp only [hq, if_true]
+        have := resolve_later t hwf y r hr r.yes (Or.inl rfl) yy h1
+        exact ih r.yes yy h1 (by omega)
+      · simp only [hq]
+        have := resolve_later t hwf y r hr r.no (Or.inr rfl) nn h2
+        exact ih r.no nn h2 (by omega)
+
 
 /-- **The index form refines the file's tree.** If `convert_tree` succeeds on a well-formed tree that
     is not in the single-leaf form, walking the node table from index 0 returns exactly what walking the
@@ -47,34 +301,315 @@ theorem search_refines_eval (qs : Questions) (t : FileTree) (st : Nat) (nodes : 
     (hc : convertTree true qs t = .ok (st, nodes)) (label : List Char) :
     searchNode nodes label (t.rows.length + 2) 0 = evalTree qs t label ∧
     ∃ k, evalTree qs t label = some k := by
-  sorry
+  obtain ⟨st0, rows⟩ := t
+  cases rows with
+  | nil => exact absurd rfl hne
+  | cons r0 rest =>
+  have hns : ¬ (rest = [] ∧ r0.yes = r0.no) := by
+    rintro ⟨rfl, h⟩; exact hnot ⟨rfl, r0, rfl, h⟩
+  let fail : String → Outcome String (Nat × List TNode) := fun what =>
+    if true = true then .err what else .panic ("parser/model/mod.rs:" ++ what)
+  have hfail : ∀ w a, fail w ≠ .ok a := by intro w a h; simp [fail] at h
+  have hct : convertTree true qs ⟨st0, r0 :: rest⟩ = convertTree.convertRows qs fail ⟨st0, r0 :: rest⟩ := by
+    unfold convertTree
+    dsimp only
+    cases rest with
+    | nil =>
+      have : ¬ ((r0.yes == r0.no) = true) := by
+        rw [child_beq_iff]; exact fun h => hns ⟨rfl, h⟩
+      simp only [this]; rfl
+    | cons r1 rest => rfl
+  rw [hct, convertRows_eq] at hc
+  dsimp only at hc
+  -- the fold succeeded
+  rcases hf : (r0 :: rest).foldl (stepC qs fail (r0 :: rest)) (.ok []) with ns | e | s
+  · rw [hf] at hc
+    simp only [Outcome.ok.injEq, Prod.mk.injEq] at hc
+    obtain ⟨hall, hns'⟩ := foldl_stepC_ok qs fail _ hfail _ _ _ hf
+    have hnodes : nodes = tableOf qs (r0 :: rest) := by
+      rw [← hc.2, hns']; simp [tableOf]
+    have hroot : resolveC (r0 :: rest) (.node r0.id) = some 0 := by
+      simp [resolveC, List.range_succ_eq_map]
+    obtain ⟨k, hk1, hk2⟩ := sim qs ⟨st0, r0 :: rest⟩ hwf label hall (rest.length + 1 + 1) (.node r0.id) 0 hroot
+      (by simp)
+    have hev : evalTree qs ⟨st0, r0 :: rest⟩ label = some k := by
+      rw [← hk2]
+      unfold evalTree
+      dsimp only
+      have : ((r0 :: rest).length == 1 && r0.yes == r0.no) = false := by
+        rw [Bool.and_eq_false_iff]
+        by_cases hr : rest = []
+        · right
+          rw [← Bool.not_eq_true, child_beq_iff]
+          exact fun h => hns ⟨hr, h⟩
+        · left
+          cases rest with
+          | nil => exact absurd rfl hr
+          | cons _ _ => simp
+      rw [this]; rfl
+    refine ⟨?_, k, hev⟩
+    rw [hev, hnodes, ← hk1]; rfl
+  · rw [hf] at hc; cases hc
+  · rw [hf] at hc; cases hc
 
 /-! ### C18: the repaired loader has no panic outcome -/
 
 theorem siteFail_guarded {α : Type} (site what : String) : (siteFail true site what : Res α) = .err what := rfl
 
+/-- the outcome is a value or an error -/
+def NoPanic {α : Type} (x : Res α) : Prop := ∀ s, x ≠ .panic s
+
+theorem noPanic_ok {α : Type} (a : α) : NoPanic (.ok a : Res α) := fun _ h => by cases h
+theorem noPanic_err {α : Type} (e : String) : NoPanic (.err e : Res α) := fun _ h => by cases h
+theorem noPanic_siteFail {α : Type} (site what : String) : NoPanic (siteFail true site what : Res α) :=
+  noPanic_err _
+theorem noPanic_bind {α β : Type} {x : Res α} {f : α → Res β} (hx : NoPanic x) (hf : ∀ a, NoPanic (f a)) :
+    NoPanic (bindR x f) := by
+  cases x with
+  | ok a => exact hf a
+  | err e => exact noPanic_err e
+  | panic s => exact absurd rfl (hx s)
+theorem noPanic_sequenceR {α : Type} (l : List (Res α)) (h : ∀ x ∈ l, NoPanic x) : NoPanic (sequenceR l) := by
+  induction l with
+  | nil => exact noPanic_ok _
+  | cons x xs ih =>
+    rw [sequenceR]
+    exact noPanic_bind (h x (by simp)) fun a =>
+      noPanic_bind (ih fun y hy => h y (by simp [hy])) fun _ => noPanic_ok _
+theorem noPanic_sequenceR_map {α β : Type} (l : List β) (f : β → Res α) (h : ∀ b, NoPanic (f b)) :
+    NoPanic (sequenceR (l.map f)) :=
+  noPanic_sequenceR _ fun x hx => by
+    obtain ⟨b, _, rfl⟩ := List.mem_map.1 hx
+    exact h b
+
+/-- closes goals of the form `NoPanic (if … / match … ⇒ .ok … / .err … / siteFail true …)` -/
+macro "no_panic_leaf" : tactic =>
+  `(tactic| (repeat' split) <;> first | exact noPanic_ok _ | exact noPanic_err _ | exact noPanic_siteFail _ _)
+
+theorem noPanic_headerNat (strict : Bool) (b : List Nat) : NoPanic (headerNat true strict b) := by
+  unfold headerNat; no_panic_leaf
+
+theorem noPanic_headerBool (b : List Nat) : NoPanic (headerBool b) := by
+  unfold headerBool; no_panic_leaf
+
+theorem noPanic_headerPair (b : List Nat) : NoPanic (headerPair true b) := by
+  unfold headerPair
+  split
+  · next x y _ =>
+    have hx := noPanic_headerNat false x
+    have hy := noPanic_headerNat false y
+    split
+    · exact noPanic_ok _
+    · next s h => exact absurd h (hx s)
+    · next s h _ => exact absurd h (hy s)
+    · exact noPanic_err _
+    · exact noPanic_err _
+  · exact noPanic_err _
+
+theorem noPanic_optPair (o : Option (List Nat)) : NoPanic (optPair true o) := by
+  unfold optPair
+  split
+  · exact noPanic_ok _
+  · exact noPanic_bind (noPanic_headerPair _) fun _ => noPanic_ok _
+
+theorem noPanic_sliceIncl (site : String) (d : List Nat) (r : Nat × Nat) : NoPanic (sliceIncl true site d r) := by
+  unfold sliceIncl; no_panic_leaf
+
+theorem noPanic_checkedMul (a b : Nat) : NoPanic (checkedMul true a b) := by
+  unfold checkedMul; no_panic_leaf
+
+theorem noPanic_headerLines (b : List Nat) : NoPanic (headerLines b) := by
+  unfold headerLines
+  dsimp only
+  generalize List.filter _ _ = lines
+  induction lines with
+  | nil => exact noPanic_ok _
+  | cons l ls ih =>
+    rw [List.foldr_cons]
+    split
+    · no_panic_leaf
+    · exact ih
+
+theorem noPanic_lookup1 (kvs : List (List Nat × List Nat)) (key : String) : NoPanic (lookup1 kvs key) := by
+  unfold lookup1; no_panic_leaf
+
+theorem noPanic_lookupOpt (kvs : List (List Nat × List Nat)) (key : String) : NoPanic (lookupOpt kvs key) := by
+  unfold lookupOpt; no_panic_leaf
+
+
+/-- chains of `bindR` whose heads are known no-panic components -/
+macro "no_panic_chain" : tactic =>
+  `(tactic| repeat' first
+    | exact noPanic_ok _ | exact noPanic_err _ | exact noPanic_siteFail _ _
+    | exact noPanic_headerNat _ _ | exact noPanic_headerBool _ | exact noPanic_headerPair _
+    | exact noPanic_optPair _ | exact noPanic_sliceIncl _ _ _ | exact noPanic_checkedMul _ _
+    | exact noPanic_headerLines _ | exact noPanic_lookup1 _ _ | exact noPanic_lookupOpt _ _
+    | apply noPanic_sequenceR_map
+    | (refine noPanic_bind ?_ ?_)
+    | intro _)
+
+theorem noPanic_parseGlobal (b : List Nat) : NoPanic (parseGlobal true b) := by
+  unfold parseGlobal; no_panic_chain
+
+theorem noPanic_parseStreamGroup (g : List (List Nat × List Nat)) : NoPanic (parseStreamGroup true g) := by
+  unfold parseStreamGroup; no_panic_chain
+
+theorem noPanic_parsePosGroup (g : List (List Nat × List Nat)) : NoPanic (parsePosGroup true g) := by
+  unfold parsePosGroup; no_panic_chain
+
+theorem noPanic_splitSections (b : List Nat) : NoPanic (splitSections b) := by
+  unfold splitSections
+  dsimp only
+  refine noPanic_bind (by no_panic_leaf) fun ⟨g, r1⟩ => ?_
+  refine noPanic_bind (by no_panic_leaf) fun ⟨s, r2⟩ => ?_
+  refine noPanic_bind (by no_panic_leaf) fun ⟨p, r3⟩ => ?_
+  no_panic_leaf
+
+
+theorem noPanic_map {α β : Type} {x : Res α} (f : α → β) (hx : NoPanic x) : NoPanic (Outcome.map f x : Res β) := by
+  cases x with
+  | ok a => exact noPanic_ok _
+  | err e => exact noPanic_err e
+  | panic s => exact absurd rfl (hx s)
+
+theorem noPanic_foldl {α β : Type} (step : Res α → β → Res α)
+    (hstep : ∀ acc b, NoPanic acc → NoPanic (step acc b)) (l : List β) (acc : Res α) (h : NoPanic acc) :
+    NoPanic (l.foldl step acc) := by
+  induction l generalizing acc with
+  | nil => exact h
+  | cons b l ih => exact ih _ (hstep acc b h)
+
+theorem noPanic_convertRows (qs : Questions) (fail : String → Outcome String (Nat × List TNode))
+    (hfail : ∀ w, NoPanic (fail w)) (t : FileTree) : NoPanic (convertTree.convertRows qs fail t) := by
+  unfold convertTree.convertRows
+  dsimp only
+  split
+  · exact noPanic_ok _
+  · exact noPanic_err _
+  · next s h =>
+    exfalso
+    revert h
+    apply noPanic_foldl _ _ _ _ (noPanic_ok _)
+    intro acc r hacc
+    split
+    · split
+      · exact noPanic_ok _
+      · exact noPanic_map _ (hfail _)
+      · exact noPanic_map _ (hfail _)
+      · exact noPanic_map _ (hfail _)
+    · exact hacc
+
+theorem noPanic_convertTree (qs : Questions) (t : FileTree) : NoPanic (convertTree true qs t) := by
+  unfold convertTree
+  have hfail : ∀ w : String, NoPanic (if true = true then Outcome.err w
+      else Outcome.panic ("parser/model/mod.rs:" ++ w) : Outcome String (Nat × List TNode)) :=
+    fun w => noPanic_err w
+  dsimp only
+  split
+  · split
+    · split
+      · exact noPanic_ok _
+      · exact hfail _
+    · exact noPanic_convertRows _ _ hfail _
+  · exact noPanic_convertRows _ _ hfail _
+
+theorem noPanic_parseModel (d : List Nat) (treeR pdfR : Nat × Nat) (pdfLen : Nat) :
+    NoPanic (parseModel true d treeR pdfR pdfLen) := by
+  unfold parseModel
+  refine noPanic_bind (noPanic_sliceIncl _ _ _) fun tb => ?_
+  split
+  · exact noPanic_err _
+  · refine noPanic_bind (noPanic_sliceIncl _ _ _) fun pb => ?_
+    split
+    · exact noPanic_err _
+    · exact noPanic_bind (noPanic_sequenceR_map _ _ fun t => noPanic_convertTree _ _) fun _ => noPanic_ok _
+
+
 /-- **No panic.** For every byte sequence the guarded reader returns a voice or an error. -/
 theorem parseVoice_no_panic (bytes : List Nat) : ∀ s, parseVoice true bytes ≠ .panic s := by
-  sorry
+  show NoPanic (parseVoice true bytes)
+  unfold parseVoice
+  refine noPanic_bind (noPanic_splitSections _) fun ⟨gb, sb, pb, d⟩ => ?_
+  refine noPanic_bind (noPanic_parseGlobal _) fun g => ?_
+  refine noPanic_bind (noPanic_headerLines _) fun skv => ?_
+  refine noPanic_bind (noPanic_headerLines _) fun pkv => ?_
+  refine noPanic_bind (by no_panic_chain) fun dpdf => ?_
+  refine noPanic_bind (by no_panic_chain) fun dtree => ?_
+  refine noPanic_bind (noPanic_checkedMul _ _) fun durLen => ?_
+  refine noPanic_bind (noPanic_parseModel _ _ _ _) fun dur => ?_
+  split
+  · exact noPanic_siteFail _ _
+  split
+  · rw [if_pos rfl]; exact noPanic_err _
+  refine noPanic_bind (noPanic_sequenceR_map _ _ fun name => ?_) fun _ => noPanic_ok _
+  dsimp only
+  split
+  · exact noPanic_err _
+  split
+  · exact noPanic_err _
+  refine noPanic_bind (noPanic_parsePosGroup _) fun pos => ?_
+  refine noPanic_bind (noPanic_parseStreamGroup _) fun sm => ?_
+  refine noPanic_bind (noPanic_checkedMul _ _) fun vw => ?_
+  refine noPanic_bind (noPanic_checkedMul _ _) fun vw2 => ?_
+  refine noPanic_bind (noPanic_parseModel _ _ _ _) fun model => ?_
+  refine noPanic_bind ?_ fun gv => ?_
+  · split
+    · split
+      · refine noPanic_bind (noPanic_checkedMul _ _) fun gl => ?_
+        exact noPanic_bind (noPanic_parseModel _ _ _ _) fun m => noPanic_ok _
+      · exact noPanic_err _
+    · exact noPanic_ok _
+  refine noPanic_bind (noPanic_sequenceR_map _ _ fun r => ?_) fun _ => noPanic_ok _
+  refine noPanic_bind (noPanic_sliceIncl _ _ _) fun wb => ?_
+  split
+  · exact noPanic_ok _
+  · exact noPanic_err _
+
+/-- `ByteArray.toList` is the underlying list (the library defines it by a counting loop) -/
+theorem byteArray_toList_loop (bs : ByteArray) (i : Nat) (r : List UInt8) :
+    ByteArray.toList.loop bs i r = r.reverse ++ bs.data.toList.drop i := by
+  fun_induction ByteArray.toList.loop bs i r with
+  | case1 i r h ih =>
+    rw [ih]
+    obtain ⟨⟨l⟩⟩ := bs
+    simp only [ByteArray.size, Array.size] at h
+    simp only [ByteArray.get!]
+    rw [List.drop_eq_getElem_cons h]
+    have : (⟨l⟩ : Array UInt8)[i]! = l[i] := by
+      rw [getElem!_pos (⟨l⟩ : Array UInt8) i (by simpa using h)]; rfl
+    rw [this]; simp
+  | case2 i r h =>
+    obtain ⟨⟨l⟩⟩ := bs
+    simp only [ByteArray.size, Array.size] at h
+    simp [List.drop_eq_nil_of_le (Nat.le_of_not_gt h)]
+
+theorem byteArray_toList (bs : ByteArray) : bs.toList = bs.data.toList := by
+  simp [ByteArray.toList, byteArray_toList_loop]
+
+theorem bytesOf_nines : bytesOf "99999999999999999999999999" = List.replicate 26 57 := by
+  have h : "99999999999999999999999999" = String.ofList (List.replicate 26 '9') := by decide
+  rw [bytesOf, String.toUTF8, h, String.toByteArray_ofList, byteArray_toList, List.utf8Encode,
+    List.toList_data_toByteArray]
+  decide
 
 /-- the pinned commit's sites, as statements about the unguarded model -/
-theorem pinned_slice_panics : ∃ s, sliceIncl false "parser/mod.rs" [1, 2, 3] (5, 2) = .panic s := by
-  sorry
-theorem pinned_truncated_panics : ∃ s, sliceIncl false "parser/mod.rs" [1, 2, 3] (1, 7) = .panic s := by
-  sorry
+theorem pinned_slice_panics : ∃ s, sliceIncl false "parser/mod.rs" [1, 2, 3] (5, 2) = .panic s :=
+  ⟨_, rfl⟩
+theorem pinned_truncated_panics : ∃ s, sliceIncl false "parser/mod.rs" [1, 2, 3] (1, 7) = .panic s :=
+  ⟨_, rfl⟩
 theorem pinned_overflow_panics :
     ∃ s, headerNat false true (bytesOf "99999999999999999999999999") = .panic s := by
-  sorry
+  rw [bytesOf_nines]; exact ⟨_, rfl⟩
 theorem pinned_unknown_question_panics :
-    ∃ s, convertTree false [] ⟨2, [⟨0, "Q", .pdf 1, .pdf 2⟩]⟩ = .panic s := by
-  sorry
+    ∃ s, convertTree false [] ⟨2, [⟨0, "Q", .pdf 1, .pdf 2⟩]⟩ = .panic s :=
+  ⟨_, rfl⟩
 theorem pinned_lone_node_child_panics :
-    ∃ s, convertTree false [] ⟨2, [⟨0, "", .node (-3), .node (-3)⟩]⟩ = .panic s := by
-  sorry
+    ∃ s, convertTree false [] ⟨2, [⟨0, "", .node (-3), .node (-3)⟩]⟩ = .panic s :=
+  ⟨_, rfl⟩
 theorem guarded_same_inputs_are_errors :
     (∃ e, sliceIncl true "parser/mod.rs" [1, 2, 3] (5, 2) = .err e) ∧
     (∃ e, headerNat true true (bytesOf "99999999999999999999999999") = .err e) ∧
     (∃ e, convertTree true [] ⟨2, [⟨0, "Q", .pdf 1, .pdf 2⟩]⟩ = .err e) := by
-  sorry
+  rw [bytesOf_nines]; exact ⟨⟨_, rfl⟩, ⟨_, rfl⟩, ⟨_, rfl⟩⟩
 
 end Jb.Hts
